@@ -3,6 +3,17 @@ package harness
 func init() {
 	plans["C16"] = func(thorough bool) []*Job {
 		var jobs []*Job
+		var cacheLevel []*Job
+		// cache level: the write buffer (4 slots in the small-scope build) fills up while an iteration holds the eviction
+		// lock; the writer that finds it full hands its own event to the maintenance it runs itself — after the queued ones
+		{
+			six := []string{"set 1", "set 1", "set 1", "set 1", "set 1", "set 1"}
+			for _, holder := range []string{"coldest", "invall", "cleanup"} {
+				p := concParams{Label: "cache:" + holder + "‖6 Sets(buffer-full)", Cfg: CacheCfg{MaxSize: 8, WriteMax: 4, Executor: "caller"}, Setup: []string{"set 1", "set 2"}, Threads: [][]string{{holder}, six}, Oracles: []string{"producer-order", "ledger", "audit"}}
+				need := []string{"producer-order-pairs"}
+				cacheLevel = append(cacheLevel, &Job{Scenario: "cache.conc", Params: js(p), Variant: "small", PB: 2, Shards: 8, BudgetS: 120, Terminat: true, Need: need})
+			}
+		}
 		add := func(p c16Params, pb, shards, budget int) {
 			jobs = append(jobs, &Job{Scenario: "c16.mpsc", Params: js(p), PB: pb, Shards: shards, BudgetS: budget, Terminat: true})
 		}
@@ -30,7 +41,7 @@ func init() {
 			add(c16Params{Init: 2, Max: 4, Producers: []int{2, 2}, Preload: 3}, 2, 4, 60)
 			add(c16Params{Init: 2, Max: 4, Producers: []int{4}, Preload: 3}, 2, 4, 60)
 			add(c16Params{Init: 2, Max: 8, Producers: []int{4, 4}, Preload: 3}, 1, 4, 60)
-			return jobs
+			return append(jobs, cacheLevel...)
 		}
 		add(c16Params{Init: 2, Max: 4, Producers: []int{2, 2}}, 4, 16, 300)
 		add(c16Params{Init: 2, Max: 4, Producers: []int{1, 1}, Preload: 3}, 5, 16, 300)
@@ -43,6 +54,6 @@ func init() {
 		add(c16Params{Init: 2, Max: 4, Producers: []int{4}, Preload: 3}, 5, 16, 300)
 		add(c16Params{Init: 2, Max: 8, Producers: []int{4, 4}, Preload: 3}, 2, 16, 300)
 		add(c16Params{Init: 4, Max: 8, Producers: []int{8}, Preload: 5}, 3, 16, 300)
-		return jobs
+		return append(jobs, cacheLevel...)
 	}
 }
